@@ -87,6 +87,7 @@ inline Plan Gen(uint64_t seed)
    static const int weights[NUM_T] = {34, 16, 5, 4, 5, 8, 10, 0, 9, 9};
    int tot = 0; for (int w : weights) tot += w;
    int pk = (int) cfg.below((uint32_t) tot), t = 0; while(pk >= weights[t]) {pk -= weights[t]; t++;}
+   if (cfg.oneIn(300)) t = T_MICRO;   // the micro codec's read API is not bounds-checked at all (recorded finding F27: nearly every rewritten stream crashes it), so it is sampled rarely
    const int enc = ((t == T_BIN)||(t == T_TMPL)||(t == T_WS)) ? (cfg.pct(70) ? 0 : (int) cfg.below(10)) : 0;
    static const uint32_t lrus[] = {100, 1000, 100000, 1024*1024};
    static const uint32_t mtus[] = {25, 40, 64, 100, 300, 576, 1500, 9000};
@@ -382,7 +383,29 @@ inline void Exec(const Plan & plan, RunResult & res)
    // 4. a real receiver consumes it under the chunk schedule
    std::vector<std::string> got; uint64_t delivered = 0; bool sawError = false;
    SetCurOp("C02 feed hostile traffic (%s, %zu bytes, %zu packets)", kTNames[t], hostile.stream.size(), hostile.packets.size()); WatchdogArm(0);
-   if (t == T_MINI)
+   if (t == T_MICRO)
+   {
+      // the C micro gateway: parses in place inside a caller-supplied buffer; every item of a delivered UMessage is then read through the public API
+      SimStream in; in.q.assign(hostile.stream.begin(), hostile.stream.end()); in.closed = true; in.SetSched(false, rsched);
+      std::vector<uint8_t> ib(1<<16), ob(64); UMessageGateway gw; UGGatewayInitialize(&gw, &ib[0], (uint32) ib.size(), &ob[0], (uint32) ob.size());
+      size_t idle = 0, calls = 0;
+      while((in.q.size() > 0)&&(calls < (hostile.stream.size()+50)*(rsched.size()+3)))
+      {
+         UMessage um; const uint64_t before = in.totalRead; const uint32 mx = inMax[calls % inMax.size()]; calls++;
+         const int32 r = UGDoInput(&gw, mx ? mx : MUSCLE_NO_LIMIT, CRecv, &in, &um);
+         th.u((uint64_t)(int64_t) r);
+         if (UMIsMessageValid(&um))
+         {
+            // exact-size copy so that reads past the Message hit a red zone, then the walk
+            std::vector<uint8_t> exact(UMGetFlattenedBuffer(&um), UMGetFlattenedBuffer(&um) + UMGetFlattenedSize(&um));
+            UMessage copy; if ((!exact.empty())&&(UMInitializeWithExistingData(&copy, &exact[0], (uint32) exact.size()) == CB_NO_ERROR)) {WalkUMessage(&copy); FILE * nf = fopen("/dev/null", "w"); if (nf) {UMPrint(&copy, nf); fclose(nf);}}
+            got.push_back(std::string((const char *) UMGetFlattenedBuffer(&um), UMGetFlattenedSize(&um))); delivered++; st.inc("msgs_delivered");
+         }
+         if (r < 0) {sawError = true; break;}
+         if (in.totalRead == before) {if (++idle > rsched.size()+3) break;} else idle = 0;
+      }
+   }
+   else if (t == T_MINI)
    {
       SimStream in; in.q.assign(hostile.stream.begin(), hostile.stream.end()); in.closed = true; in.SetSched(false, rsched);
       MMessageGateway * gw = MGAllocMessageGateway(); size_t idle = 0, calls = 0;
